@@ -98,6 +98,12 @@ type VerifSim struct {
 	// DupAsError: answer a cached duplicate batch with ErrDuplicateSequenceNumber instead of success + original offset
 	DupAsError bool
 	closed     bool
+	// consumer side (sim_fetch.go)
+	FetchFault      func(n int, broker int32) VerifSimFetchFault
+	FetchMaxRecords int
+	fetchN          int
+	fetches         []VerifSimFetchInfo
+	logStart        map[string]int64
 	// Other handles request types the cluster does not know (group/offset/fetch protocols are added by other harnesses)
 	Other func(b int32, body protocolBody) encoderWithHeader
 }
@@ -114,7 +120,7 @@ func tpKey(t string, p int32) string { return fmt.Sprintf("%s/%d", t, p) }
 
 // VerifNewSim starts nBrokers brokers; topics maps topic name -> partition count; partition p is led by broker p % nBrokers.
 func VerifNewSim(nBrokers int, topics map[string]int32) *VerifSim {
-	s := &VerifSim{Topics: topics, leader: map[string][]int32{}, logs: map[string][]VerifSimRecord{}, idem: map[string]*simIdem{}, nextPid: 1000}
+	s := &VerifSim{Topics: topics, leader: map[string][]int32{}, logs: map[string][]VerifSimRecord{}, idem: map[string]*simIdem{}, nextPid: 1000, logStart: map[string]int64{}}
 	for i := 0; i < nBrokers; i++ {
 		ln, err := net.Listen("tcp", "127.0.0.1:0")
 		if err != nil {
@@ -239,6 +245,10 @@ func (b *simBroker) serve(c net.Conn) {
 			b.sim.mu.Unlock()
 		case *ApiVersionsRequest:
 			res = &ApiVersionsResponse{}
+		case *FetchRequest:
+			res, closeAfter = b.sim.fetch(b.id, body)
+		case *OffsetRequest:
+			res = b.sim.listOffsets(b.id, body)
 		default:
 			if b.sim.Other != nil {
 				res = b.sim.Other(b.id, req.body)
